@@ -131,3 +131,123 @@ Definition wf (c : case) : bool :=
         end)) (c_steps c).
 
 End LC.
+
+(* ------------------------------------------------------------------------------------------
+   Vocabulary shared by the property predicates (written from the property texts, against
+   file tree + kernel table only; nothing here calls the command model). *)
+Module LCS.
+Import LC.
+
+Definition layers_on_disk (c : cfgT) (f : fsT) : lmap := read_layer_files c f.
+Definition layer_named (c : cfgT) (f : fsT) (n : bytes) : option layer := lm_get (layers_on_disk c f) n.
+
+(* root base ... L, or [] when the chain is broken *)
+Definition chain (c : cfgT) (f : fsT) (n : bytes) : list layer :=
+  let m := layers_on_disk c f in
+  match ancestors_and_self (S (length m)) m n [] with Some l => l | None => [] end.
+
+Definition root_base (ch : list layer) (x : layer) : layer := match ch with b0 :: _ => b0 | [] => x end.
+
+(* resolved import source: $$self = the layer's directory, $$base = the root base layer's *)
+Definition resolve_source (c : cfgT) (ch : list layer) (x : layer) (src : bytes) : option bytes :=
+  adjust_prefixed src (fun name =>
+    if beq name (bs "base") then Some (l_path (root_base ch x))
+    else if beq name (bs "self") then Some (l_path x) else None).
+
+Record emount := MkEM { em_target : bytes; em_source : bytes; em_fstype : bytes; em_overlay : bool }.
+
+(* the mounts layer x must have, in the order they are to be made *)
+Definition expected_mounts (c : cfgT) (ch : list layer) (x : layer) : list emount :=
+  (match l_base x with
+   | [] => []
+   | b0 => [MkEM (build_path c x) overlay overlay true]
+   end) ++
+  flat_map (fun nm => match resolve_source c ch x (nm_source nm) with
+                      | Some s => [MkEM (pathjoin [build_path c x; nm_mount nm]) s (nm_fstype nm) false]
+                      | None => [] end) (l_mounts x).
+Definition expected_chain_mounts (c : cfgT) (ch : list layer) : list emount :=
+  flat_map (expected_mounts c ch) ch.
+
+Definition count_at (tab : list kline) (p : bytes) : nat := length (filter (fun k => beq (k_mp k) p) tab).
+Definition mounted_at (tab : list kline) (p : bytes) : bool := match top_at tab p with Some _ => true | None => false end.
+Definition any_at_or_under (tab : list kline) (d : bytes) : bool := existsb (fun k => at_or_under d (k_mp k)) tab.
+
+(* does kernel mount k show source src mounted with type ty (identity of a bind = device + root) *)
+Definition is_bind_type (ty : bytes) : bool := beq ty (bs "bind") || beq ty (bs "rbind").
+(* the table as it was when k was attached (lines are in attachment order) *)
+Fixpoint before_line (tab : list kline) (k : kline) : list kline :=
+  match tab with
+  | [] => []
+  | m :: r => if beq (k_id m) (k_id k) then [] else m :: before_line r k
+  end.
+Definition shows_source (tab : list kline) (k : kline) (src ty : bytes) : bool :=
+  if is_bind_type ty then
+    match covering (before_line tab k) src with
+    | Some cv => beq (k_dev k) (k_dev cv) && beq (k_root k) (join_root (k_root cv) (rel_suffix (k_mp cv) src))
+    | None => false
+    end
+  else beq (k_fstype k) ty && beq (k_source k) src.
+
+Definition sopt (k : kline) (key : bytes) : bytes := last_opt key (k_sopts k) [].
+Definition is_right_overlay (c : cfgT) (m : lmap) (x : layer) (k : kline) : bool :=
+  beq (k_fstype k) overlay
+  && match lm_get m (l_base x) with
+     | Some p => beq (sopt k (bs "lowerdir")) (build_path c p)
+     | None => false end
+  && beq (sopt k (bs "upperdir")) (upper_path c x)
+  && beq (sopt k (bs "workdir")) (work_path c x).
+
+(* replay the mount / umount calls of a log over the kernel model, checking P before each *)
+Fixpoint replay_calls (f : fsT) (ks : kstate) (log : list op) (P : kstate -> op -> bool) : bool :=
+  match log with
+  | [] => true
+  | o :: r =>
+    match o with
+    | OMount s t ty fl d =>
+      P ks o && match kmount f ks s t ty fl d with KOk ks' => replay_calls f ks' r P | KErr => replay_calls f ks r P end
+    | OUmount t fl =>
+      P ks o && match kumount ks t fl with KOk ks' => replay_calls f ks' r P | KErr => replay_calls f ks r P end
+    | _ => replay_calls f ks r P
+    end
+  end.
+
+Definition is_slave_call (o : op) : bool :=
+  match o with OMount _ _ _ fl _ => has_flag fl MS_SLAVE | _ => false end.
+Definition mount_targets (log : list op) : list bytes :=
+  flat_map (fun o => match o with OMount _ t _ fl _ => if has_flag fl MS_SLAVE then [] else [t] | _ => [] end) log.
+Definition umount_targets (log : list op) : list bytes :=
+  flat_map (fun o => match o with OUmount t _ => [t] | _ => [] end) log.
+Definition syscalls (log : list op) : list op :=
+  filter (fun o => match o with OMount _ _ _ _ _ | OUmount _ _ => true | _ => false end) log.
+
+Fixpoint subseq (a b0 : list bytes) : bool :=       (* a is a subsequence of b0 *)
+  match a, b0 with
+  | [], _ => true
+  | _ :: _, [] => false
+  | x :: a', y :: b' => if beq x y then subseq a' b' else subseq a b'
+  end.
+
+Definition plain_env (e : env) : bool :=
+  negb (e_pretend e) && match e_fault e with NoFault => true | _ => false end.
+Definition unchanged (w : wobs) (s : step) : bool :=
+  match d_removed (s_delta s), d_upsert (s_delta s) with [], [] => true | _, _ => false end
+  && ktab_beq (s_ktab s) (ks_tab (wo_ks w)).
+
+(* busy in the three ways the properties name *)
+Definition overlain_by_mount (c : cfgT) (tab : list kline) (x : layer) : bool :=
+  existsb (fun k => beq (k_fstype k) overlay && beq (sopt k (bs "lowerdir")) (build_path c x)) tab.
+Definition has_mounts (c : cfgT) (tab : list kline) (x : layer) : bool := any_at_or_under tab (build_path c x).
+Definition in_mount_dirs (c : cfgT) (u : user) : bool :=
+  existsb (fun d => beq (u_file u) d || prefixb (d ++ [sl]) (u_file u)) [c_buildroot c; c_work c; c_upper c].
+
+(* is d a (proper or improper) descendant of a in the forest m? *)
+Fixpoint descends (fuel : nat) (m : lmap) (a d : bytes) : bool :=
+  beq a d ||
+  match fuel with
+  | O => false
+  | S f' => match lm_get m d with
+            | Some l => (match l_base l with [] => false | b0 => descends f' m a b0 end)
+            | None => false
+            end
+  end.
+End LCS.
